@@ -313,7 +313,10 @@ class MailDriver:
         g0 = w.gseq + 1
         dirty = self._dirty()
         try:
-            res = await w.cmd(sess, text, kind=kind, uid=uid, wait=wait)
+            # no settling here: the command's event is recorded at the moment
+            # its tagged line arrives, so that nothing that happens afterwards
+            # (a management task poll) can be attributed to it
+            res = await w.cmd(sess, text, kind=kind, uid=uid, wait=wait, settle=0)
         finally:
             self._cmd_depth -= 1
         adm = self._admit.pop(sess, 0)
@@ -359,6 +362,7 @@ class MailDriver:
                        env=env, pre=adm, vt=res.vt, watchdog=res.watchdog, found=found,
                        text=(res.tagged or {}).get("text", "")[:80], **f)
         ev["cmdline"] = (text if isinstance(text, str) else text[:120].decode("latin-1"))[:120]
+        await w.advance(0.05)
         return ev, res
 
     # -- actions -------------------------------------------------------------------------
@@ -397,9 +401,11 @@ class MailDriver:
         w = self.w
         tag = getattr(self, "_idle_tag", {}).get(s, "T0000")
         g0 = w.gseq + 1
-        res = await w.done(s, tag)
-        return self.emit("Done", sess=s, res=res, status=res.status if res.tagged else "NONE",
-                         src=w.project_sess(s)["sel"], g0=g0)
+        res = await w.done(s, tag, settle=0)
+        ev = self.emit("Done", sess=s, res=res, status=res.status if res.tagged else "NONE",
+                       src=w.project_sess(s)["sel"], g0=g0)
+        await w.advance(0.05)
+        return ev
 
     async def append(self, s, mb, flags=(), date=0, mid=None, body=None):
         mid = mid if mid is not None else self.w.alloc_id()
@@ -477,7 +483,7 @@ class MailDriver:
                          delivered=[[k, i, bool(unseen)] for k, i in zip(keys, ids)],
                          flags=["adv"] if adv else [])
 
-    async def poll(self, secs=6.0):
+    async def poll(self, secs=21.0):
         dirty = self._dirty()
         self._cmd_depth += 1
         self._env_start = None
